@@ -42,3 +42,5 @@ def run(ctx):
     from . import c09 as C9
     C9.o3_resolve_vs_construct(ctx, 'R08.10')
     C9.o3b_pyyaml_scalars(ctx, 'R08.12')
+    from . import round3 as R3
+    R3.r01_10_tree_untouched(ctx, 'R08.13')
